@@ -312,8 +312,19 @@ fn run_worker(w: usize, globals: Vec<usize>, srcs: &[Src], strides: &[usize], na
             if let Ok(f) = std::fs::File::open(&cur_path) { let _ = f.read_at(&mut rec, 0); }
             (u64::from_le_bytes(rec[..8].try_into().unwrap()), u64::from_le_bytes(rec[8..16].try_into().unwrap()) as usize, u64::from_le_bytes(rec[16..].try_into().unwrap()) as usize)
         };
+        // the limit is on the child's CPU time since its last progress (a hang burns CPU; a loaded
+        // machine must not turn a slow-but-finite case into a false alarm); wall clock x10 as a backstop
+        let pid = child.id();
+        let cpu_ms = move || -> u64 {
+            std::fs::read_to_string(format!("/proc/{}/stat", pid)).ok().and_then(|t| {
+                let rest = t.rsplit(')').next()?.to_string();
+                let f: Vec<&str> = rest.split_whitespace().collect();
+                Some((f.get(11)?.parse::<u64>().ok()? + f.get(12)?.parse::<u64>().ok()?) * 10)
+            }).unwrap_or(0)
+        };
         let mut last = 0u64;
         let mut last_change = Instant::now();
+        let mut cpu_at_change = 0u64;
         let mut timed_out = false;
         let mut polls = 0u64;
         let status = loop {
@@ -323,9 +334,10 @@ fn run_worker(w: usize, globals: Vec<usize>, srcs: &[Src], strides: &[usize], na
                 Err(_) => break None,
             }
             let (c, _, _) = read_cur();
-            if c != last { last = c; last_change = Instant::now(); }
+            if c != last { last = c; last_change = Instant::now(); cpu_at_change = cpu_ms(); }
             // the first case of a child also pays for building the trained codecs
-            else if last_change.elapsed() > limit + if c <= 1 { Duration::from_secs(4) } else { Duration::ZERO } {
+            else if polls % 8 == 0 && (Duration::from_millis(cpu_ms().saturating_sub(cpu_at_change)) > limit + if c <= 1 { Duration::from_secs(4) } else { Duration::ZERO }
+                     || last_change.elapsed() > limit * 10) {
                 let _ = child.kill();
                 timed_out = true;
                 break child.wait().ok();
@@ -347,7 +359,7 @@ fn run_worker(w: usize, globals: Vec<usize>, srcs: &[Src], strides: &[usize], na
             o.notes.push(format!("child of worker {} died before its first case ({:?})", w, status));
             break;
         }
-        let (kind, msg) = if timed_out { ("timeout", format!("no result within {:?}", limit)) } else {
+        let (kind, msg) = if timed_out { ("timeout", format!("no result within {:?} of CPU time", limit)) } else {
             match status.and_then(|s| s.signal()) {
                 Some(sig) => ("abort", format!("killed by signal {} ({})", sig, match sig { 6 => "SIGABRT", 11 => "SIGSEGV", 7 => "SIGBUS", 4 => "SIGILL", 9 => "SIGKILL", 8 => "SIGFPE", _ => "?" })),
                 None => ("abort", format!("exit status {:?}", status.and_then(|s| s.code()))),
